@@ -343,7 +343,7 @@ func init() {
 			if tier == "quick" {
 				md = 3
 			}
-			j := mk(sprintf("c07.wheel_sweep.level%d.maxdelta%d", L, md), expPkg, "ZZ_C13_Sweep", map[string]int{"level": L, "maxdelta": md, "canary": 0},
+			j := mk(sprintf("c07.wheel_sweep.level%d.maxdelta%d", L, md), expPkg, "ZZ_C13_Sweep", map[string]int{"level": L, "maxdelta": md, "canary": 0, "extended": 0},
 				func(b *Bounds) { b.Unwind = 70; b.MaxPaths = 500000; b.MaxWallS = 1500 })
 			j.Labels = []string{"c13.sweep.fires_only_expired"}
 			j.Prefer = "bits"
@@ -518,12 +518,28 @@ func init() {
 			if tier == "quick" && L <= 2 {
 				md = 3
 			}
-			j := mk(sprintf("c13.sweep.level%d.maxdelta%d", L, md), expPkg, "ZZ_C13_Sweep", map[string]int{"level": L, "maxdelta": md, "canary": 0},
+			j := mk(sprintf("c13.sweep.level%d.maxdelta%d", L, md), expPkg, "ZZ_C13_Sweep", map[string]int{"level": L, "maxdelta": md, "canary": 0, "extended": 0},
 				func(b *Bounds) { b.Unwind = 70; b.MaxPaths = 500000; b.MaxWallS = 1500 })
 			j.Labels = []string{"c13.sweep.progress_within_one_tick", "c13.sweep.fires_only_expired", "c13.sweep.invariant_reestablished"}
 			js = append(js, j)
 		}
-		j = mk("c13.sweep.canary", expPkg, "ZZ_C13_Sweep", map[string]int{"level": 1, "maxdelta": 2, "canary": 1}, func(b *Bounds) { b.Unwind = 70 })
+		// the same sweep when a read has extended the deadline and its re-scheduling event was dropped (timer still in the
+		// bucket of the old deadline)
+		xl := []int{0, 1}
+		if tier == "thorough" {
+			xl = []int{0, 1, 2, 3}
+		}
+		for _, L := range xl {
+			md := 0
+			if tier == "quick" {
+				md = 3
+			}
+			j := mk(sprintf("c13.sweep_extended.level%d.maxdelta%d", L, md), expPkg, "ZZ_C13_Sweep", map[string]int{"level": L, "maxdelta": md, "canary": 0, "extended": 1},
+				func(b *Bounds) { b.Unwind = 70; b.MaxPaths = 500000; b.MaxWallS = 1500 })
+			j.Labels = []string{"c13.sweep.fires_only_expired", "c13.sweep.invariant_reestablished"}
+			js = append(js, j)
+		}
+		j = mk("c13.sweep.canary", expPkg, "ZZ_C13_Sweep", map[string]int{"level": 1, "maxdelta": 2, "canary": 1, "extended": 0}, func(b *Bounds) { b.Unwind = 70 })
 		j.Canary = "c13.sweep.canary"
 		js = append(js, j)
 		for _, j := range js {
